@@ -40,6 +40,10 @@ for rel, tree in sorted(trees.items()):
             for s in node.body:
                 if isinstance(s, ast.FunctionDef):
                     locs[f"{rel}::{node.name}.{s.name}"] = sorted(function_locals(s))
-out = {"note": old.get("note", ""), "functions": sorted(set(funcs)), "call_styles": call_styles(trees), "locals": locs}
+from sa.model import Model
+
+_m = Model(src)
+init_order = {c.key: _m.init_order(c) for c in _m.all_classes() if c.is_dataclass and "__init__" not in c.methods}
+out = {"note": old.get("note", ""), "functions": sorted(set(funcs)), "call_styles": call_styles(trees), "locals": locs, "init_order": init_order}
 json.dump(out, open(path, "w"), indent=0)
 print(len(out["functions"]), "functions,", len(out["call_styles"]), "call-style entries;", "functions changed" if set(old.get("functions", [])) != set(out["functions"]) else "functions unchanged")
